@@ -255,6 +255,11 @@ def judge(seed, z_force=None):
                 return f"rho / weights on {name} raised {type(ex).__name__}: {ex}"
             if not np.allclose(r_v, full, rtol=1e-6, atol=0) or not np.allclose(w_v, ra / (ra + rb), rtol=rt, atol=1e-7):
                 return f"rho / weights on {name} differ from the values for the same points as a contiguous array"
+        # no points at all, and a single point: one value per point
+        e0 = PromoleculeDensity((els, pos)).rho(np.zeros((0, 3), dtype=np.float32))
+        e1 = PromoleculeDensity((els, pos)).rho(pts[:1])
+        if np.shape(e0) != (0,) or np.shape(e1) != (1,) or not np.allclose(e1, full[:1], rtol=1e-6, atol=0):
+            return f"rho of an empty point set has shape {np.shape(e0)}, of a single point {np.shape(e1)} (value {e1!r} vs {full[:1]!r})"
         # the background given as the third POSITIONAL argument of StockholderWeight
         wpos = StockholderWeight(PromoleculeDensity((els[:k], pos[:k])), PromoleculeDensity((els[k:], pos[k:])), 1e-2).weights(pts)
         if not np.allclose(wpos, ra / (ra + rb + np.float32(1e-2)), rtol=rt, atol=0):
